@@ -237,6 +237,10 @@ def dangling_key(w, op, err, d):
     p, key, q = d
     if op['k'] in ('setColl', 'setMany') and err is None and p == op.get('o') and w.side(key)['coll'] and w.side(key)['casc']:
         return 'dangling:assign-collection-cascade-kills-kept-item'
+    if op['k'] == 'setMany' and err is None and p == op.get('o') and any(v == q for _, v in op['refs']):
+        return 'dangling:entity-set-links-object-deleted-by-same-call'   # Entity.set writes its reference keywords after the cascade of its collection keywords
+    if op['k'] in ('setColl', 'setMany', 'setRef') and err is None and q == op.get('o'):
+        return 'dangling:cascade-deletes-target-of-the-call'     # the object the call was made on is deleted after the successful call
     return 'dangling:%s/%s' % (op['k'], err or 'ok')
 
 
